@@ -1,11 +1,12 @@
 SPECIFICATION Spec
 CONSTANTS
   Platforms = {"ledger", "sgx"}
-  MaxDev = 4
-  MaxFileMut = 2
+  MaxDev = 2
+  MaxFileMut = 1
   Sep = TRUE
+  FullExt = 2
   Wildcard = FALSE
 INVARIANT ReturnIffOk
 INVARIANT PrintedSigned
-INVARIANT ModelConsistent
+INVARIANT EmitB
 CHECK_DEADLOCK FALSE
